@@ -132,7 +132,8 @@ def gen_cases(rng, tier):
                         yield (k, pat, b, e, per)
 
     # 1. all stores x all ranges for small k (thorough: k <= 5; quick: k <= 2 and a sample of k = 3..5)
-    pts = [p for k in range(0, kmax + 1) for p in space(k)]
+    pts = [p for k in range(0, kmax + 1) for p in space(k)
+           if not (k >= 4 and p[4] == "none" and "h" in p[1] and "a" in p[1])]   # no persister: the pattern is irrelevant
     if not thorough:
         big = [p for k in (3, 4, 5) for p in space(k) if not (p[4] == "none" and "h" in p[1] and "a" in p[1])]
         pts += rng.sample(big, 380)
@@ -140,7 +141,7 @@ def gen_cases(rng, tier):
         role = "I" if (b + e + k) % 3 else "A"
         cs.append(Case(history(rng, role, per, pat, [(b, e)]), "%s-k%d-%s" % ("exhaustive" if k <= kmax else "sample", k, per)))
     # 2. random, larger k, second request
-    n_rand = 2500 if thorough else 300
+    n_rand = 1500 if thorough else 300
     for _ in range(n_rand):
         k = rng.randint(2, 8)
         pat = "".join(rng.choice("aaahhtr") for _ in range(k))
